@@ -11,6 +11,8 @@ api yaml  <world> Y <test> (;; <world> Y <test>)*      -> PASS|FAIL (PASS|FAIL)*
 api near  <type> <val>* ; <exp>|[ <exp>* ] a <p/q|~> r <p/q|~>   -> PASS|FAIL   (assert_near called directly)
 api phist <ord:val,…|-> <probe,…>       -> <ord:val,…> | <val,…>       (served map ascending; API reading at each probe)
 api vforms <ord,…|-> <end|-> <probe,…>  -> <ord:F|n,…> | <start|-,…>  (served formulas; the one in force at each probe)
+api scale <thr-hist~val-hist;…> <probe,…> -> <ord=row,…> | <row,…>     (rows ascending by date, row = `thr>val/…` ascending by
+                                           threshold, `n` = null, `-` = nothing; the reading at each probe without null values)
 api params <J>                          -> <id-hex,…>                   (ids listed by /parameters, sorted)
 api echo <text>                         -> <text>                       (cases carried by the oracle only)
 ```
@@ -442,6 +444,34 @@ def sortByDate {α : Type} (l : List (Int × α)) : List (Int × α) := l.foldl 
 
 def apiShowList (xs : List String) : String := if xs.isEmpty then "-" else ",".intercalate xs
 
+def apiQ? (t : String) : Option Rat :=
+  match apiScalar? t with
+  | some (.int n) => some n
+  | some (.num q) => some q
+  | _ => none
+
+def apiQEntry? (t : String) : Option (Int × Option Rat) :=
+  match t.splitOn ":" with
+  | [d, v] => do pure (← d.toInt?, ← (if v = "n" then some none else (apiQ? v).map some))
+  | _ => none
+
+def apiBracket? (t : String) : Option ApiBracket :=
+  match t.splitOn "~" with
+  | [th, vs] => do pure ⟨← (apiList th).mapM apiQEntry?, ← (apiList vs).mapM apiQEntry?⟩
+  | _ => none
+
+def showQ (q : Rat) : String := s!"{q.num}/{q.den}"
+
+def insertByThr {α : Type} (x : Rat × α) : List (Rat × α) → List (Rat × α)
+  | [] => [x]
+  | y :: r => if x.1 < y.1 then x :: y :: r else y :: insertByThr x r
+
+def sortByThr {α : Type} (l : List (Rat × α)) : List (Rat × α) := l.foldl (fun acc x => insertByThr x acc) []
+
+def showRow (row : List (Rat × Option Rat)) : String :=
+  if row.isEmpty then "-" else
+  "/".intercalate ((sortByThr row).map fun (t, v) => showQ t ++ ">" ++ (match v with | some x => showQ x | none => "n"))
+
 def handleApi (args : List String) : String :=
   match args with
   | "calc" :: r =>
@@ -483,6 +513,16 @@ def handleApi (args : List String) : String :=
         | none => "-"
       s!"{apiShowList shown} | {apiShowList atp}"
     | _, _, _ => "BAD"
+  | ["scale", brackets, probes] =>
+    match (if brackets = "-" then some [] else (brackets.splitOn ";").mapM apiBracket?), (apiList probes).mapM String.toInt? with
+    | some brs, some ps =>
+      let served := buildApiScale brs
+      let shown := (sortByDate served).map fun (d, row) => s!"{d}=" ++ (match row with | some r => showRow r | none => "n")
+      let atp := ps.map fun d => match apiGetValue d served with
+        | some r => showRow ((r.filterMap (fun tv => tv.2.map (fun v => (tv.1, some v)))))
+        | none => "n"
+      s!"{apiShowList shown} | {apiShowList atp}"
+    | _, _ => "BAD"
   | "params" :: r =>
     match parseJ (r.length + 1) r with
     | some (j, []) =>
